@@ -112,6 +112,22 @@ Proof.
   - intros Hw'. rewrite (var_raster_eq w ny_ nx_ I r c Hw Hr Hc). apply wsum_variance_nonneg. exact Hw'.
 Qed.
 
+(* maximal cost: a census cost never exceeds cmax = w * w; a zncc cell has cov^2 <= varL varR (Cauchy-Schwarz on
+   the two windows), so the cost it determines lies in [-1, 1], cmax = 1 *)
+Theorem C02_census_cost_le_cmax : forall inp dmin dmax r c k z,
+  0 < i_w inp /\ Z.odd (i_w inp) = true /\ 0 < i_s inp -> i_w inp * i_w inp <= 32 ->
+  0 <= r < i_ny inp -> 0 <= c < i_nx inp -> 0 <= k < nb_disp (i_s inp) dmin dmax ->
+  census_volume_z inp dmin dmax r c k = Some z -> 0 <= z <= cmax Census inp.
+Proof. exact census_cost_bounded. Qed.
+
+Theorem C02_zncc_cost_le_cmax : forall inp dmin dmax r c k cm vlm vrm,
+  0 < i_w inp /\ Z.odd (i_w inp) = true /\ 0 < i_s inp ->
+  0 <= r < i_ny inp -> 0 <= c < i_nx inp -> 0 <= k < nb_disp (i_s inp) dmin dmax ->
+  zncc_volume inp dmin dmax r c k = Some (cm, vlm, vrm) ->
+  cm * cm <= vlm * vrm
+  /\ forall v : Q, zncc_is v (inject_Z cm) (inject_Z vlm) (inject_Z vrm) -> (v * v <= inject_Z (cmax Zncc inp))%Q.
+Proof. exact zncc_volume_bounded. Qed.
+
 (* the cost cov / sqrt(varL varR) does not depend on the scaling of the triple *)
 Theorem C02_zncc_scale_invariant : forall v cov vl vr k1 k2 k3,
   (0 < k1 -> 0 < k2 -> 0 < k3 -> k1 * k1 == k2 * k3 ->
@@ -178,6 +194,8 @@ Print Assumptions C02_census_hamming.
 Print Assumptions C02_zncc_model_eq_spec.
 Print Assumptions C02_mean_raster_eq_window_mean.
 Print Assumptions C02_zncc_scale_invariant.
+Print Assumptions C02_census_cost_le_cmax.
+Print Assumptions C02_zncc_cost_le_cmax.
 Print Assumptions C02_point_interval_spec.
 Print Assumptions C02_dsp_index.
 Print Assumptions C02_measure_metadata.
